@@ -31,8 +31,11 @@ GATES = ["ctor_calls", "parse_calls", "stream_runs", "exc:RTCMMessageError", "ex
          "long_error_runs", "line_budget_runs"]
 
 
-def _ctor(ctx, payload, labelmsm=1, tag="ctor", rep=None):
+def _ctor(ctx, payload, labelmsm=None, tag="ctor", rep=None):
     from pyrtcm import RTCMMessage
+
+    if labelmsm is None:  # every value the option is documented / used with
+        labelmsm = ctx.rng.choice((1, 1, 2, 0, True))
 
     libs = common.lib_errors()
     ctx.hit("ctor_calls")
@@ -60,8 +63,11 @@ def _ctor(ctx, payload, labelmsm=1, tag="ctor", rep=None):
     ctx.case(b"ctor" + payload + bytes([labelmsm]), not ok)
 
 
-def _parse(ctx, buf, validate, labelmsm=1, rep=None):
+def _parse(ctx, buf, validate, labelmsm=None, rep=None):
     from pyrtcm import RTCMReader
+
+    if labelmsm is None:
+        labelmsm = ctx.rng.choice((1, 1, 2, 0, True))
 
     libs = common.lib_errors()
     ctx.hit("parse_calls")
@@ -464,14 +470,14 @@ def run(ctx):
             sizes = [rng.choice((1, 2, 3, 7, 50, "T", "E", 400)) for _ in range(rng.randint(0, 25))]
             _stream(ctx, data, {}, mode, validate, 0, "socket",
                     {"sizes": sizes, "bufsize": rng.choice((1, 3, 64, 4096)), "encoding": enc_opt,
-                     "labelmsm": rng.choice((1, 2))})
+                     "labelmsm": rng.choice((1, 2, 0))})
         elif i % 16 == 5:
             _stream(ctx, data, {}, mode, validate, 0, rng.choice(("pipe", "makefile")), {"labelmsm": 1})
         else:
             ncalls = max(1, c01.count_calls(data))
             plan = {rng.randrange(ncalls): rng.choice(("short", "short", "empty", "eof", "partial"))
                     for _ in range(rng.choice((0, 1, 2, 4, 8)))}
-            _stream(ctx, data, plan, mode, validate, rng.getrandbits(16), "file", {"labelmsm": rng.choice((1, 2)),
+            _stream(ctx, data, plan, mode, validate, rng.getrandbits(16), "file", {"labelmsm": rng.choice((1, 2, 0)),
                                                                                 "rtype": rng.choice(("bytes", "bytes", "bytearray"))})
 
 
